@@ -13,7 +13,7 @@ RULE = (
     "Real SyncTransport + BaseMySensorsProtocol over a fake connection object (records writes; write on a closed "
     "connection raises OSError as pyserial does). Thread bodies: T0 = transport.send(cmd); T1 in "
     "{connection_lost(OSError), connection_lost(None), transport.disconnect(), lost-then-connection_made(new)}; "
-    "also two senders, k producers calling tasks.add_job against the real _poll_queue loop, and the real "
+    "also two senders, k producers calling tasks.add_job against the real _poll_queue loop, the real poll loop draining two queued commands while the connection is lost and re-made, and the real "
     "TCPTransport.write over a local socket pair racing with a loss / a disconnect. The bodies run "
     "as real threads under sys.settrace; at every source line of mysensors/transport.py and mysensors/task.py the "
     "thread parks and the harness scheduler picks who runs next. ALL schedules with <= 2 pre-emptions (3 in the "
@@ -26,7 +26,7 @@ RULE = (
 )
 
 CMD = "1;1;1;0;2;1\n"
-SCENARIOS = ("lost_error", "lost_clean", "disconnect", "lost_then_made", "two_senders", "producers", "tcp_lost_error", "tcp_disconnect")
+SCENARIOS = ("lost_error", "lost_clean", "disconnect", "lost_then_made", "two_senders", "producers", "tcp_lost_error", "tcp_disconnect", "pump_lost_made")
 
 
 class FakeConnection:
@@ -92,6 +92,9 @@ def make_scenario(name):
                 return False
 
         tr._lock = LazyLock()  # pylint: disable=protected-access
+        if hasattr(proto, "_reconnect_lock"):
+            # a further real lock of the protocol object would block the cooperative scheduler as well
+            proto._reconnect_lock = LazyLock()  # pylint: disable=protected-access
 
         def t_send(cmd=CMD):
             tr.send(cmd)
@@ -132,6 +135,36 @@ def make_scenario(name):
             other = "2;2;1;0;2;0\n"
             ctx["sent_cmds"] = [CMD, other]
             bodies = [t_send, lambda: tr.send(other)]
+        elif name == "pump_lost_made":
+            # the real poll loop drains two queued commands while the connection is lost with an error and a
+            # new one is made: what reaches a connection is a subsequence of the queue, in queue order
+            import mysensors.task as task
+
+            jobs = [CMD, "2;2;1;0;2;0\n"]
+            ctx["sent_cmds"] = jobs
+            for j in jobs:
+                gw.tasks.add_job(str, j)
+            new = FakeConnection("B", log)
+            ctx["conn_b"] = new
+            state = {"done": 0}
+
+            def lost_made():
+                proto.connection_lost(OSError("glitch"))
+                proto.connection_made(new)
+                state["done"] = 1
+
+            class FakeTime:
+                @staticmethod
+                def sleep(_secs):
+                    run = late()
+                    if state["done"] and not gw.tasks.queue:
+                        gw.tasks._stop_event.set()  # pylint: disable=protected-access
+                        return
+                    run.wait_until(lambda: bool(gw.tasks.queue) or state["done"])
+
+            ctx["restore"] = (task, task.time)
+            task.time = FakeTime
+            bodies = [gw.tasks._poll_queue, lost_made]  # pylint: disable=protected-access
         elif name == "producers":
             import mysensors.task as task
 
@@ -198,7 +231,11 @@ def judge(run, ctx, stats=None, origin="dfs"):
             raise Violation(f"write_on_closed.{name}", case, f"[{name}] a write reached closed connection {conn_name}")
     wrote = [data.decode() for _, data, _ in log]
     cmds = ctx["sent_cmds"]
-    if name == "producers":
+    if name == "pump_lost_made":
+        it = iter(cmds)
+        if len(set(wrote)) != len(wrote) or not all(w in it for w in wrote):
+            raise Violation("pump_order_or_duplicate", case, f"[{name}] queued {cmds}; reached a connection: {wrote} (must be a sub-sequence of the queue, each command at most once)")
+    elif name == "producers":
         if sorted(wrote) != sorted(cmds):
             raise Violation("producers_lost_or_duplicated", case, f"[{name}] queued {sorted(cmds)}, sent {wrote}")
         if wrote != ctx["state"]["order"]:
@@ -236,6 +273,8 @@ def explore_scenario(args):
     stats = common.Stats()
     found = {}
 
+    budget = {"after_first": 0}
+
     def on_run(run, ctx):
         try:
             judge(run, ctx, stats)
@@ -243,6 +282,13 @@ def explore_scenario(args):
             if v.clause not in found or len(v.case["schedule"]) < len(found[v.clause].case["schedule"]):
                 found[v.clause] = v
             stats.label("violating-schedules:" + v.clause)
+        if found:
+            # keep looking for other clauses / shorter schedules for a while, not for ever
+            budget["after_first"] += 1
+            if budget["after_first"] > 300:
+                stats.label("exploration-cut-after-violation")
+                return "stop"
+        return None
 
     runs = sched.explore(make_scenario(name), files(), bound, on_run)
     stats.label(f"runs:{name}", runs)
@@ -352,7 +398,7 @@ def main(tier):
             run_.stats.violation(v.clause, v.case, f"[regression {os.path.basename(path)}] {v.detail}")
     bound = 2 if tier == "quick" else 3
     # the three-thread producer scenario has far more schedules per pre-emption: one less there
-    jobs = [(name, bound - 1 if name == "producers" else bound) for name in SCENARIOS]
+    jobs = [(name, bound - 1 if name in ("producers", "pump_lost_made") else bound) for name in SCENARIOS]
     for stats in common.pool_map(explore_scenario, jobs):
         run_.stats.merge(stats)
     n = 60 if tier == "quick" else 1000
